@@ -172,6 +172,20 @@ pub fn scenarios(tier: &str) -> Vec<Scenario> {
             }
         }
     }
+    // the same bodies as the conversion of a service error (the dispatcher's error-response path)
+    for wb in [1usize, 1024] {
+        let name = format!("response:4k-chunks/wb{wb}/stalled-at-0/as-service-error");
+        let mk = &bodies[0].1;
+        let mut s = Scenario::new(&name, vec![{ let mut r = RequestSpec::new("GET", 0); r.handler = 0; r }], vec![HandlerProgram::ok(mk()).status(500).as_error()]);
+        s.env.gauges = true;
+        s.env.spurious_polls = 40;
+        s.env.light_log = true;
+        s.env.budgets = vec![("read", 6), ("write", 6), ("flush", 3), ("env", 10), ("envq", 4), ("shutdown", 2)];
+        s.fin = FinPlan::Never;
+        s.config.write_buf = wb;
+        s.env.stall_writes_after = Some(0);
+        out.push(s);
+    }
     // the same with an upgrade service configured (HttpServiceBuilder::upgrade rebuilds the
     // builder: every setting made before it must survive)
     for wb in [1usize, 1024] {
